@@ -322,6 +322,8 @@ PROPS = {
         "technique": "Kani per-operation step contracts over an arbitrary well-formed page (bounded), abstract view read through the real accessors, frame by witness index",
         "kani_units": ["leaf_ops"],
         "harness_timeout": 1500,
+        "mem_gb": 48,
+        "jobs": 3,
         "explanation": "Bounded per-operation page invariant on one leaf page (scaled page size, <= 3 cells).",
     },
     "C31": {
